@@ -154,3 +154,55 @@ proof! {
         std::mem::forget(a);
     }
 }
+
+// ---- the public entry points themselves (Cursor<Vec<u8>> sink): node_to_bytes_limit against node_to_bytes
+fn public_limit(a: &Allocator, t: NodePtr, max_limit: usize) {
+    let limit: usize = kani::any();
+    kani::assume(limit <= max_limit);
+    let full = clvmr::serde::node_to_bytes(a, t);
+    let lim = clvmr::serde::node_to_bytes_limit(a, t, limit);
+    match &full {
+        Ok(f) => {
+            let n = f.len();
+            match &lim {
+                Ok(l) => {
+                    assert!(n <= limit, "C29/public/over-limit-must-fail");
+                    assert!(l.len() == n, "C29/public/within-limit-returns-the-unlimited-serialization");
+                    let mut i = 0;
+                    while i < n {
+                        assert!(l[i] == f[i], "C29/public/within-limit-returns-the-unlimited-serialization");
+                        i += 1;
+                    }
+                    kani::cover!(n == limit, "limit exactly equal to length");
+                }
+                Err(e) => {
+                    assert!(n > limit, "C29/public/within-limit-must-succeed");
+                    assert!(matches!(e, EvalErr::OutOfMemory), "C29/public/over-limit-is-out-of-memory");
+                    kani::cover!(limit + 1 == n, "limit one below length");
+                }
+            }
+        }
+        Err(_) => assert!(false, "C29/public/unlimited-must-succeed"),
+    }
+    std::mem::forget(full);
+    std::mem::forget(lim);
+}
+proof! {
+    #[kani::unwind(12)]
+    fn c29_public_atom() {
+        let mut a = Allocator::new();
+        let (x, _, _) = leaves(&mut a);
+        public_limit(&a, x, 5);
+        std::mem::forget(a);
+    }
+}
+proof! {
+    #[kani::unwind(12)]
+    fn c29_public_pair() {
+        let mut a = Allocator::new();
+        let (x, y, _) = leaves(&mut a);
+        let t = a.new_pair(x, y).unwrap();
+        public_limit(&a, t, 7);
+        std::mem::forget(a);
+    }
+}
